@@ -207,6 +207,20 @@ func newEnv(h *hostState) starlark.StringDict {
 		h.events.WriteString("\n")
 		return starlark.None, nil
 	})
+	// stack(label…) records the call stack the host sees (every frame with its position) and returns its depth
+	env["stack"] = starlark.NewBuiltin("stack", func(th *starlark.Thread, _ *starlark.Builtin, args starlark.Tuple, kw []starlark.Tuple) (starlark.Value, error) {
+		h.events.WriteString("stack")
+		for _, a := range args {
+			h.events.WriteString(" " + canon.ValueOpts(a, canon.Opts{MaxNodes: 200}))
+		}
+		h.events.WriteString(":")
+		cs := th.CallStack()
+		for _, fr := range cs {
+			fmt.Fprintf(&h.events, " %s@%s:%d:%d", fr.Name, fr.Pos.Filename(), fr.Pos.Line, fr.Pos.Col)
+		}
+		fmt.Fprintf(&h.events, " | caller %s\n", th.CallFrame(1).Pos)
+		return starlark.MakeInt(len(cs)), nil
+	})
 	env["module"] = starlark.NewBuiltin("module", starlarkstruct.MakeModule)
 	env["host"] = &starlarkstruct.Module{Name: "host", Members: hostMembers()}
 	env["hs"] = starlarkstruct.FromStringDict(starlarkstruct.Default, hostMembers())
@@ -236,9 +250,17 @@ func errorText(err error) string {
 	return s
 }
 
-// execute runs the program once. th == nil means a fresh thread; a reused thread keeps whatever
-// the earlier executions left in it (step counter, locals), and the steps are reported as a delta.
+// execute runs the program once from source. th == nil means a fresh thread; a reused thread keeps
+// whatever the earlier executions left in it (step counter, locals), and the steps are reported as a delta.
 func execute(th *starlark.Thread, c *Case) Record {
+	return executeWith(th, func(th *starlark.Thread, env starlark.StringDict) (starlark.StringDict, error) {
+		return starlark.ExecFileOptions(sl.OptionsFromBits(c.Bits), th, "prog.star", c.Src, env)
+	})
+}
+
+// executeWith runs one execution (ExecFileOptions of a source text, or Init of a compiled Program)
+// on the given or a fresh thread with a fresh standard environment and returns its Record.
+func executeWith(th *starlark.Thread, run func(*starlark.Thread, starlark.StringDict) (starlark.StringDict, error)) Record {
 	h := &hostState{}
 	if th == nil {
 		th = &starlark.Thread{Name: "c03"}
@@ -259,7 +281,7 @@ func execute(th *starlark.Thread, c *Case) Record {
 	var g starlark.StringDict
 	var err error
 	pn := sl.Safe(func() {
-		g, err = starlark.ExecFileOptions(sl.OptionsFromBits(c.Bits), th, "prog.star", c.Src, newEnv(h))
+		g, err = run(th, newEnv(h))
 	})
 	rec := Record{Print: h.prints.String(), Events: h.events.String(), Steps: th.ExecutionSteps() - before}
 	if pn != nil {
